@@ -413,6 +413,26 @@ func (l *Lexer) RescanText(tok Token) Token {
 	return l.scanText()
 }
 
+// RescanWord re-reads the input from the start of tok as a single commodity word
+// (letters and digits). The parser uses it where a commodity is expected after a
+// quantity but the lexer produced free text ("1.5 hours @ $20").
+func (l *Lexer) RescanWord(tok Token) Token {
+	l.pos = tok.Pos.Offset
+	l.line = tok.Pos.Line
+	l.column = tok.Pos.Column
+	l.atStart = false
+	start := l.pos
+	startPos := l.position()
+	for l.pos < len(l.input) {
+		r, _ := utf8.DecodeRuneInString(l.input[l.pos:])
+		if !unicode.IsLetter(r) && !unicode.IsDigit(r) {
+			break
+		}
+		l.advance()
+	}
+	return Token{Type: TokenCommodity, Value: l.input[start:l.pos], Pos: startPos, End: l.position()}
+}
+
 func (l *Lexer) scanText() Token {
 	start := l.pos
 	startPos := l.position()
